@@ -145,7 +145,7 @@ def run(ctx):
     binp = ctx.build("heap")
     mc(ctx)
     if ctx.quick:
-        gen(ctx, binp, 3, 4)
+        gen(ctx, binp, 3, 6)
         tv(ctx, binp, 150, 2)
     else:
         gen(ctx, binp, 4, 8)
